@@ -212,10 +212,15 @@ type hyQuery struct {
 	k      int
 	fusion int
 	wv, wt int
+	rrk    int // reciprocal-rank constant (60 unless rrkSet)
+	rrkSet bool
 }
 
 func (r *hyRun) search(q hyQuery) {
-	fu, _ := comet.NewFusion(fuseKinds[q.fusion], &comet.FusionConfig{VectorWeight: float64(q.wv) / 2, TextWeight: float64(q.wt) / 2, K: 60})
+	if q.rrk == 0 && !q.rrkSet {
+		q.rrk = 60
+	}
+	fu, _ := comet.NewFusion(fuseKinds[q.fusion], &comet.FusionConfig{VectorWeight: float64(q.wv) / 2, TextWeight: float64(q.wt) / 2, K: float64(q.rrk)})
 	s := r.h.NewSearch().WithK(q.k).WithFusion(fu)
 	if r.vecKind == "ivf" {
 		s = s.WithNProbes(2) // every cluster: exact
@@ -272,11 +277,12 @@ func (r *hyRun) search(q hyQuery) {
 		}
 	}
 	r.t.ev("search", E{"qpos": q.qpos, "qtoks": r.bm.toks(q.text), "groups": groups, "hasFilter": hasFilter, "k": q.k,
-		"fusion": string(fuseKinds[q.fusion]), "wv": q.wv, "wt": q.wt, "ok": err == nil && !panicked, "res": res})
+		"fusion": string(fuseKinds[q.fusion]), "wv": q.wv, "wt": q.wt, "rrk": q.rrk, "ok": err == nil && !panicked, "res": res})
 }
 
 func (r *hyRun) randQuery() hyQuery {
-	q := hyQuery{qpos: -1, k: 1 + r.rng.Intn(5), fusion: r.rng.Intn(4), wv: []int{1, 2, 4}[r.rng.Intn(3)], wt: []int{1, 2, 4}[r.rng.Intn(3)]}
+	q := hyQuery{qpos: -1, k: 1 + r.rng.Intn(5), fusion: r.rng.Intn(4), wv: []int{0, 1, 2, 4}[r.rng.Intn(4)], wt: []int{0, 1, 2, 4}[r.rng.Intn(4)],
+		rrk: []int{0, 1, 10, 60}[r.rng.Intn(4)], rrkSet: true}
 	useV, useT, useM := r.rng.Intn(2) == 0, r.rng.Intn(2) == 0, r.rng.Intn(2) == 0
 	if !useV && !useT && !useM {
 		useV = true
@@ -340,6 +346,17 @@ func (r *hyRun) battery() {
 	r.search(hyQuery{qpos: -1, text: "zzz", groups: eq("x"), k: 3, fusion: 0, wv: 2, wt: 2})      // text matches nothing inside a non-empty candidate set
 	r.search(hyQuery{qpos: 5, text: "aa", groups: eq("w"), k: 3, fusion: 2, wv: 2, wt: 2})         // filter matches nothing
 	r.search(hyQuery{qpos: 9, text: "bb", groups: eq("y"), k: 2, fusion: 3, wv: 2, wt: 2})         // min fusion: intersection may be empty
+	// boundary fusion configurations: both weights zero, one weight zero, reciprocal-rank constants 0 and 1
+	r.search(hyQuery{qpos: 3, text: "aa bb", k: 5, fusion: 0, wv: 0, wt: 0})
+	r.search(hyQuery{qpos: 3, text: "aa bb", k: 5, fusion: 0, wv: 0, wt: 2})
+	r.search(hyQuery{qpos: 3, text: "aa bb", k: 5, fusion: 1, wv: 2, wt: 2, rrk: 0, rrkSet: true})
+	r.search(hyQuery{qpos: 3, text: "aa bb", k: 5, fusion: 1, wv: 2, wt: 2, rrk: 1, rrkSet: true})
+	// numeric filters: a re-added document is found under its new number only
+	num := func(op string, v int) []mgroup { return []mgroup{{Logic: "AND", Fs: []mfilter{{F: "n", Op: op, V: v}}}} }
+	r.search(hyQuery{qpos: -1, groups: num("eq", 5), k: 5, fusion: 0, wv: 2, wt: 2, simple: true})
+	r.search(hyQuery{qpos: -1, groups: num("eq", -5), k: 5, fusion: 0, wv: 2, wt: 2})
+	r.search(hyQuery{qpos: 1, groups: num("lt", 0), k: 5, fusion: 0, wv: 2, wt: 2})
+	r.search(hyQuery{qpos: -1, text: "aa bb", groups: num("gte", 0), k: 5, fusion: 0, wv: 2, wt: 2, simple: true})
 }
 
 func drvHybrid(args []string) error {
@@ -429,7 +446,7 @@ func drvHybrid(args []string) error {
 				}
 				if r.rng.Intn(4) > 0 {
 					meta = map[string]any{"c": []string{"x", "y"}[r.rng.Intn(2)]}
-					if r.rng.Intn(2) == 0 {
+					if r.rng.Intn(3) > 0 {
 						meta["n"] = []int{-5, 0, 5}[r.rng.Intn(3)]
 					}
 				}
